@@ -84,6 +84,7 @@ type Hist struct {
 	Ops      []Op
 	Queries  []Box
 	KQs      []KQ
+	Scale    float64 // generator only (not on the wire): the coordinate unit of the pool
 }
 
 func (h *Hist) String() string {
